@@ -163,12 +163,14 @@ struct Case {
     size: usize,
     place: Place,
     path: PathK,
+    /// notification paths: the same notification is pushed / broadcast this many times in a row
+    repeat: u8,
 }
 
 impl Case {
     fn json(&self) -> Value {
         let (q, b) = shape(self);
-        json!({"limit": self.limit, "size": self.size, "place": self.place.name(), "path": self.path.name(),
+        json!({"limit": self.limit, "size": self.size, "place": self.place.name(), "path": self.path.name(), "repeat": self.repeat,
                "query_len": q, "body_len": b, "real_size": frames::HEADER + q + b})
     }
     fn from_json(v: &Value) -> Option<Case> {
@@ -180,6 +182,7 @@ impl Case {
             size: v["size"].as_u64()? as usize,
             place: Place::from_name(v["place"].as_str()?)?,
             path: PathK::from_name(v["path"].as_str()?)?,
+            repeat: v["repeat"].as_u64().unwrap_or(1) as u8,
         })
     }
 }
@@ -231,7 +234,20 @@ fn enumerate(tier: Tier) -> Vec<Case> {
         for size in sizes_of(limit, tier) {
             for place in PLACES {
                 for path in PATHS {
-                    out.push(Case { limit, size, place, path });
+                    out.push(Case { limit, size, place, path, repeat: 1 });
+                }
+            }
+        }
+    }
+    // the same notification two and three times in a row (every one is delivered, or dropped AND reported)
+    for limit in limits_of(tier) {
+        let Some(l) = limit else { continue };
+        for size in [l, l + 1, l + 49] {
+            for path in PATHS {
+                if path.is_notify() {
+                    for repeat in [2u8, 3] {
+                        out.push(Case { limit, size, place: Place::Body, path, repeat });
+                    }
                 }
             }
         }
@@ -499,6 +515,7 @@ fn check_notify(o: &mut CaseOut, c: &Case, seen: &[Vec<u8>], expected: &Frame, e
             o.notes.push(format!("{}: unexpected on_error event {s}", c.path.name()));
         }
     }
+    let r = c.repeat as usize;
     if fits(c.limit, want.len()) {
         match seen {
             [] => o.bad(c, "small-refused", "a notification within the limit never reached the peer".into()),
@@ -508,8 +525,12 @@ fn check_notify(o: &mut CaseOut, c: &Case, seen: &[Vec<u8>], expected: &Frame, e
                 } else {
                     o.bad(c, "small-altered", format!("a notification within the limit arrived altered: {}", Rx::Bin(one.clone()).describe()));
                 }
-                if !rest.is_empty() {
-                    o.notes.push(format!("{}: notification delivered {} times", c.path.name(), seen.len()));
+                if seen.len() < r {
+                    o.bad(c, "small-refused", format!("the notification (within the limit) was sent {r} times in a row and reached the peer {} times", seen.len()));
+                } else if rest.iter().any(|m| *m != want) {
+                    o.bad(c, "small-altered", "a repeated notification within the limit arrived altered".into());
+                } else if seen.len() > r {
+                    o.notes.push(format!("{}: notification delivered {} times, sent {r} times", c.path.name(), seen.len()));
                 }
             }
         }
@@ -528,7 +549,8 @@ fn check_notify(o: &mut CaseOut, c: &Case, seen: &[Vec<u8>], expected: &Frame, e
     }
     match reports.len() {
         0 => o.bad(c, "drop-not-reported", "an oversized notification produced no OutboundTooLarge event on the on_error hook".into()),
-        1 => {
+        n if n < r => o.bad(c, "drop-not-reported", format!("the oversized notification was sent {r} times in a row (each one dropped) but only {n} OutboundTooLarge events reached the on_error hook")),
+        n if n == r => {
             if reports[0] != (want.len(), limit) {
                 o.notes.push(format!(
                     "{}: OutboundTooLarge reports size={} limit={} for a {}-byte message and limit {}",
@@ -543,7 +565,7 @@ fn check_notify(o: &mut CaseOut, c: &Case, seen: &[Vec<u8>], expected: &Frame, e
                 o.class = Some(Class::Dropped);
             }
         }
-        n => o.bad(c, "drop-reported-twice", format!("an oversized notification produced {n} OutboundTooLarge events instead of one")),
+        n => o.bad(c, "drop-reported-twice", format!("{r} oversized notification(s) produced {n} OutboundTooLarge events")),
     }
 }
 
@@ -670,6 +692,10 @@ async fn server_case(c: &Case, q: usize, b: usize) -> CaseOut {
             check_error_response(&mut o, c, &got, &expected, REQ_ID);
         }
         PathK::CtxNotify => {
+          for _round in 0..c.repeat {
+            if !usable {
+                break;
+            }
             let trig = Frame::request(REQ_ID, "/push", b"null", frames::FMT_JSON, false);
             if let Err(e) = conn.send_frame(&trig).await {
                 o.mach(format!("cannot send trigger: {e}"));
@@ -695,8 +721,10 @@ async fn server_case(c: &Case, q: usize, b: usize) -> CaseOut {
                     }
                 }
             }
+          }
         }
         _ => {
+          for _round in 0..c.repeat {
             let res = match c.path {
                 PathK::BcastJson => match registry.broadcast_notify_json(&query, &bcast_text) {
                     Ok(r) => r,
@@ -719,6 +747,7 @@ async fn server_case(c: &Case, q: usize, b: usize) -> CaseOut {
                 o.mach(format!("broadcast result map unexpected: {res:?}"));
                 return o;
             }
+          }
         }
     }
     // clause F (and, for broadcasts, the barrier behind the queued notification)
